@@ -25,6 +25,9 @@ def chain_term(chain):
 def xop_terms(op):
     """One harness op record -> list of Coq `xop` terms (LedgerX.v)."""
     k = op["k"]
+    if op.get("outage"):
+        # the node's output query failed: the call gives up before touching the wallet
+        return ["XRc %s" % cL([vlib.cZ(x) for x in op["rc"]])]
     # owner::scan = full refresh of the active account, then the scan proper
     if k == "restore":
         return ["XReset", "XOp (%s)" % refresh_term(op["parent"], True, op["view"]),
@@ -519,7 +522,7 @@ def oracle_c17(rows):
                 elif s["rc"] == [1, 7]:
                     fails.append(_fail(r, idx, "%s refused as expired with cutoff %d at observed height %d" % (k, ttl, confh)))
             # (also when the call failed with "not cancellable": the refresh had reached its expiry step)
-            if prev is not None and k == "update_state" and s["rc"] in ([0], [1, 10]):
+            if prev is not None and k == "update_state" and s["rc"] in ([0], [1, 10]) and not s["op"].get("outage"):
                 tip = s["op"]["tip"]
                 act = prev["active"]
                 ptx = {(t["parent"], t["id"]): t for t in prev["txs"]}
